@@ -38,6 +38,24 @@ def literal_scripts():
         for j, t in enumerate(["R := DS_1[rename Me_1 to '%s'];" % w, "R := DS_1[calc '%s' := Me_1 * 2];" % w, "'%s' := DS_1; R := '%s' + 1;" % (w, w),
                                "R := DS_1[calc '%s' := Me_1][keep '%s'];" % (w, w), "/* %s */ R := DS_1[rename Me_1 to '%s'][filter '%s' > 0]; // %s" % (w, w, w, w)]):
             out.append({'id': 'res%d.%d' % (i, j), 'text': t, 'env': env, 'what': 'reserved word %s' % w})
+    # every window shape, written out explicitly (also the ones equal to a default): order keys with ties, so that rows and range differ
+    wenv = {'DS_1': {'comps': [{'n': 'Id_1', 'r': 'I', 't': 'Integer'}, {'n': 'Id_2', 'r': 'I', 't': 'Integer'}, {'n': 'Me_1', 'r': 'M', 't': 'Integer'}, {'n': 'Me_2', 'r': 'M', 't': 'Integer'}],
+                     'rows': [{'Id_1': [1, 1], 'Id_2': [1, k], 'Me_1': [1, 10 ** (k - 1)], 'Me_2': [1, (k + 1) // 2]} for k in range(1, 5)] +
+                             [{'Id_1': [1, 2], 'Id_2': [1, 1], 'Me_1': [1, 7], 'Me_2': [1, 1]}]}}
+    bounds_lo = ['unbounded preceding', '1 preceding', 'current data point']
+    bounds_hi = ['current data point', '1 following', 'unbounded following']
+    w = 0
+    for kind in ('data points', 'range'):
+        for lo in bounds_lo:
+            for hi in bounds_hi:
+                for fn in ('sum', 'first_value'):
+                    over = 'partition by Id_1 order by Me_2 asc %s between %s and %s' % (kind, lo, hi)
+                    out.append({'id': 'win%d' % w, 'text': 'R := DS_1[calc Me_3 := %s(Me_1 over (%s))];' % (fn, over), 'env': wenv, 'what': 'window %s %s..%s' % (kind, lo, hi)})
+                    out.append({'id': 'wind%d' % w, 'text': 'R := %s(DS_1 over (%s));' % (fn, over), 'env': wenv, 'what': 'window %s %s..%s' % (kind, lo, hi)})
+                    w += 1
+    for j, over in enumerate(['partition by Id_1 order by Me_2 asc', 'partition by Id_1 order by Me_2 desc', 'order by Id_1 asc, Id_2 asc', 'partition by Id_1']):
+        fn = 'sum' if j < 3 else 'ratio_to_report'
+        out.append({'id': 'winx%d' % j, 'text': 'R := DS_1[calc Me_3 := %s(Me_1 over (%s))];' % (fn, over), 'env': wenv, 'what': 'window implicit'})
     comments = ['// only a comment\n', '/* block */ R := DS_1; /* tail */', 'R := /* inside */ DS_1 + /* two */ 1; // end\n// next line\nS := R;',
                 '/* multi\n   line */\nR := DS_1[calc Me_3 := 1 /* in clause */];', '// a\n// b\nR := DS_1;\n// c', 'R := DS_1; /* x */ /* y */ S := DS_1;',
                 '/**/ R := DS_1;', '// "quoted" and := inside comment\nR := DS_1;']
